@@ -83,6 +83,43 @@ Proof.
   destruct (print_dec n) as [|d t]; [congruence|]. inversion Hd; subst. exists d, t. split; [reflexivity | assumption].
 Qed.
 
+(* ---------- identifiers (pre-release / build) ---------- *)
+Lemma span_by_app p ds rest :
+  forallb p ds = true -> (match rest with c :: _ => p c = false | [] => True end) -> span_by p (ds ++ rest) = (ds, rest).
+Proof.
+  intros Hd Hr. induction ds as [|c ds IH]; cbn [app span_by].
+  - destruct rest as [|c r]; cbn [span_by]; [reflexivity|]. rewrite Hr. reflexivity.
+  - cbn [forallb] in Hd. apply andb_true_iff in Hd as [Hc Hd]. rewrite Hc, (IH Hd). reflexivity.
+Qed.
+
+Lemma span_by_fst p s : forallb p (fst (span_by p s)) = true.
+Proof.
+  induction s as [|c s IH]; cbn [span_by]; [reflexivity|].
+  destruct (p c) eqn:E; cbn [fst forallb]; [rewrite E, IH; reflexivity | reflexivity].
+Qed.
+
+Definition noident_head (rest : str) : Prop := match rest with c :: _ => is_ident_or_dot c = false | [] => True end.
+
+Lemma identifier_print pre body rest :
+  ident_valid pre body = true -> noident_head rest -> identifier pre (body ++ rest) = Some (body, rest).
+Proof.
+  unfold ident_valid, identifier. intros H Hr. apply andb_true_iff in H as [H1 H2].
+  rewrite (span_by_app _ _ _ H1 Hr). cbn [fst snd]. rewrite H2. reflexivity.
+Qed.
+
+Lemma identifier_valid pre s b r : identifier pre s = Some (b, r) -> ident_valid pre b = true.
+Proof.
+  unfold identifier, ident_valid.
+  destruct (forallb (seg_ok pre) (split_on c_dot (fst (span_by is_ident_or_dot s)))) eqn:E; [|discriminate].
+  intro H. injection H as <- _. rewrite span_by_fst, E. reflexivity.
+Qed.
+
+Lemma parse_pre_false t : parse_pre false t = Some ([], t).
+Proof. destruct t; reflexivity. Qed.
+
+Lemma parse_build_false t : parse_build false t = Some t.
+Proof. destruct t; reflexivity. Qed.
+
 (* ---------- one comparator: from_str (Display c ++ rest) ---------- *)
 Definition good_rest (rest : str) : Prop := rest = [] \/ exists r, rest = c_comma :: r.
 
@@ -92,8 +129,14 @@ Proof. intros [->|[r ->]]; cbn; reflexivity. Qed.
 Lemma good_rest_nodot rest : good_rest rest -> strip c_dot rest = None.
 Proof. intros [->|[r ->]]; reflexivity. Qed.
 
-Lemma good_rest_nopre rest : good_rest rest -> starts_pre_or_build rest = false.
-Proof. intros [->|[r ->]]; reflexivity. Qed.
+Lemma good_rest_pre b rest : good_rest rest -> parse_pre b rest = Some ([], rest).
+Proof. intros [->|[r ->]]; destruct b; reflexivity. Qed.
+
+Lemma good_rest_build b rest : good_rest rest -> parse_build b rest = Some rest.
+Proof. intros [->|[r ->]]; destruct b; reflexivity. Qed.
+
+Lemma good_rest_noident rest : good_rest rest -> noident_head rest.
+Proof. intros [->|[r ->]]; cbn; reflexivity. Qed.
 
 Lemma trim_digit d r : is_digit d = true -> trim (d :: r) = d :: r.
 Proof. intro H. cbn [trim]. rewrite (digit_neq d c_sp H) by (unfold c_sp; lia). reflexivity. Qed.
@@ -130,18 +173,17 @@ Proof. reflexivity. Qed.
 Lemma parse_cmp_print c rest :
   cmp_wf c = true -> good_rest rest -> parse_cmp (print_cmp c ++ rest) = Some (c, trim rest).
 Proof.
-  destruct c as [op maj mi pa]. unfold cmp_wf. cbn [cop cmaj cmin cpat]. intros Hwf Hr.
-  apply andb_true_iff in Hwf as [Hwf Hshape]. apply andb_true_iff in Hwf as [Hwf Hpa].
-  apply andb_true_iff in Hwf as [Hmaj Hmi]. apply N.ltb_lt in Hmaj.
+  destruct c as [op maj mi pa pre]. unfold cmp_wf. cbn [cop cmaj cmin cpat cpre]. intros Hwf Hr.
+  apply andb_true_iff in Hwf as [Hwf Hpre]. apply andb_true_iff in Hwf as [Hwf Hshape].
+  apply andb_true_iff in Hwf as [Hwf Hpa]. apply andb_true_iff in Hwf as [Hmaj Hmi]. apply N.ltb_lt in Hmaj.
   pose proof (good_rest_nodigit _ Hr) as Hnd. pose proof (good_rest_nodot _ Hr) as Hdot.
-  pose proof (good_rest_nopre _ Hr) as Hpre.
-  unfold print_cmp, parse_cmp. cbn [cop cmaj cmin cpat].
+  unfold print_cmp, parse_cmp. cbn [cop cmaj cmin cpat cpre].
   destruct (print_dec_head maj) as [d [t [Ep Hd]]].
   rewrite <- !app_assoc. rewrite Ep at 1. cbn [app]. rewrite (parse_op_print op d _ Hd).
   rewrite (trim_digit d _ Hd).
   change (d :: t ++ ?x) with ((d :: t) ++ x). rewrite <- Ep.
   destruct mi as [m|]; destruct pa as [p|]; cbn [is_some opt_lt] in *.
-  - (* major.minor.patch *)
+  - (* major.minor.patch[-pre] *)
     apply andb_true_iff in Hshape as [_ Hw]. apply negb_true_iff in Hw. rewrite Hw.
     apply N.ltb_lt in Hmi. apply N.ltb_lt in Hpa.
     cbn [app]. rewrite (num_ident_print maj _ Hmaj (nodigit_dot _)).
@@ -151,9 +193,18 @@ Proof.
     cbn [app]. rewrite (num_ident_print m _ Hmi (nodigit_dot _)).
     unfold parse_patch. cbn [strip]. rewrite N.eqb_refl.
     destruct (print_dec_head p) as [dp [tp [Epp Hdp]]].
-    rewrite Epp at 1. cbn [app]. rewrite (wildcard_digit dp _ Hdp).
-    rewrite (num_ident_print p _ Hpa Hnd). cbn [is_some andb]. rewrite Hpre. reflexivity.
+    rewrite <- !app_assoc. rewrite Epp at 1. cbn [app]. rewrite (wildcard_digit dp _ Hdp).
+    destruct pre as [|pc pr].
+    + cbn [app]. rewrite (num_ident_print p _ Hpa Hnd). cbn [is_some].
+      rewrite (good_rest_pre true rest Hr), (good_rest_build true rest Hr). reflexivity.
+    + cbn [andb] in Hpre. cbn [app].
+      rewrite (num_ident_print p (c_dash :: (pc :: pr) ++ rest) Hpa eq_refl). cbn [is_some parse_pre andb].
+      rewrite N.eqb_refl.
+      change (pc :: pr ++ rest) with ((pc :: pr) ++ rest).
+      rewrite (identifier_print true (pc :: pr) rest Hpre (good_rest_noident _ Hr)).
+      rewrite (good_rest_build true rest Hr). reflexivity.
   - (* major.minor / major.minor.* *)
+    destruct pre as [|pc pr]; [|discriminate Hpre].
     apply N.ltb_lt in Hmi.
     cbn [app]. rewrite (num_ident_print maj _ Hmaj (nodigit_dot _)).
     unfold parse_minor. cbn [strip]. rewrite N.eqb_refl.
@@ -161,26 +212,29 @@ Proof.
     rewrite <- !app_assoc. rewrite Em at 1. cbn [app]. rewrite (wildcard_digit dm _ Hdm).
     unfold wild_suffix. destruct (is_wild op) eqn:Ew.
     + cbn [app]. rewrite (num_ident_print m _ Hmi (nodigit_dot _)).
-      unfold parse_patch. cbn [strip]. rewrite N.eqb_refl. cbn [wildcard]. rewrite N.eqb_refl. cbn [orb is_some andb].
+      unfold parse_patch. cbn [strip]. rewrite N.eqb_refl. cbn [wildcard]. rewrite N.eqb_refl. cbn [orb is_some].
+      rewrite parse_pre_false, parse_build_false.
       destruct op; try discriminate Ew. reflexivity.
     + cbn [app]. rewrite (num_ident_print m _ Hmi Hnd).
-      unfold parse_patch. rewrite Hdot. cbn [is_some andb]. reflexivity.
+      unfold parse_patch. rewrite Hdot. cbn [is_some]. rewrite parse_pre_false, parse_build_false. reflexivity.
   - (* patch without minor: not well formed *)
     discriminate Hshape.
   - (* major / major.* *)
+    destruct pre as [|pc pr]; [|discriminate Hpre].
     unfold wild_suffix. destruct (is_wild op) eqn:Ew.
     + cbn [app]. rewrite (num_ident_print maj _ Hmaj (nodigit_dot _)).
       unfold parse_minor. cbn [strip]. rewrite N.eqb_refl. cbn [wildcard]. rewrite N.eqb_refl. cbn [orb].
-      unfold parse_patch. rewrite Hdot. cbn [is_some andb].
+      unfold parse_patch. rewrite Hdot. cbn [is_some]. rewrite parse_pre_false, parse_build_false.
       destruct op; try discriminate Ew. reflexivity.
     + cbn [app]. rewrite (num_ident_print maj _ Hmaj Hnd).
-      unfold parse_minor. rewrite Hdot. unfold parse_patch. rewrite Hdot. cbn [is_some andb]. reflexivity.
+      unfold parse_minor. rewrite Hdot. unfold parse_patch. rewrite Hdot. cbn [is_some].
+      rewrite parse_pre_false, parse_build_false. reflexivity.
 Qed.
 
 (* ---------- the list of comparators ---------- *)
 Lemma print_cmp_head c : exists h t, print_cmp c = h :: t /\ (h =? c_sp) = false /\ wildcard (h :: t) = None.
 Proof.
-  destruct c as [op maj mi pa]. unfold print_cmp. cbn [cop cmaj cmin cpat].
+  destruct c as [op maj mi pa pre]. unfold print_cmp. cbn [cop cmaj cmin cpat cpre].
   destruct (print_dec_head maj) as [d [t [Ep Hd]]]. rewrite Ep.
   destruct op; cbn [print_op app];
     try (eexists; eexists; split; [reflexivity | split; reflexivity]).
@@ -260,6 +314,17 @@ Proof.
   - intro H. injection H as <- <- <- <-. split; [reflexivity|]. intros _. split; [reflexivity | intros _; exact Es].
 Qed.
 
+Lemma parse_pre_spec hp t pre t' :
+  parse_pre hp t = Some (pre, t') -> match pre with [] => true | _ :: _ => hp && ident_valid true pre end = true.
+Proof.
+  unfold parse_pre. destruct t as [|c r].
+  - intro H. injection H as <- _. reflexivity.
+  - destruct (hp && (c =? c_dash)) eqn:E.
+    + intro H. pose proof (identifier_valid _ _ _ _ H) as Hv. apply andb_true_iff in E as [-> _].
+      destruct pre; [reflexivity | exact Hv].
+    + intro H. injection H as <- _. reflexivity.
+Qed.
+
 Lemma parse_cmp_wf s c t : parse_cmp s = Some (c, t) -> cmp_wf c = true.
 Proof.
   unfold parse_cmp. pose proof (parse_op_notwild s) as Hop.
@@ -267,23 +332,26 @@ Proof.
   destruct (num_ident (trim t0)) as [[maj t1]|] eqn:Emaj; [|discriminate].
   destruct (parse_minor dflt op t1) as [[[[mi t2] hasw] op2]|] eqn:Emi; [|discriminate].
   destruct (parse_minor_spec _ _ _ _ _ _ _ Emi) as [Hmi Hspec].
-  unfold parse_patch. destruct (strip c_dot t2) as [t'|] eqn:Es.
+  apply num_ident_lt in Emaj. apply N.ltb_lt in Emaj.
+  destruct (parse_patch dflt hasw op2 t2) as [[[pa t3] op3]|] eqn:Epa; [|discriminate].
+  destruct (parse_pre (is_some pa) t3) as [[pre t4]|] eqn:Epre; [|discriminate].
+  destruct (parse_build (is_some pa) t4) as [t5|]; [|discriminate].
+  intro H. injection H as <- _.
+  pose proof (parse_pre_spec _ _ _ _ Epre) as Hpre.
+  unfold cmp_wf. cbn [cop cmaj cmin cpat cpre]. rewrite Emaj, Hmi. cbn [andb].
+  unfold parse_patch in Epa. destruct (strip c_dot t2) as [t'|] eqn:Es.
   - destruct (wildcard t') as [t''|].
-    + cbn [is_some andb]. intro H. injection H as <- _.
-      unfold cmp_wf. cbn [cop cmaj cmin cpat opt_lt]. rewrite Hmi.
-      apply num_ident_lt in Emaj. apply N.ltb_lt in Emaj. rewrite Emaj. reflexivity.
+    + injection Epa as <- _ _. cbn [opt_lt is_some andb] in *.
+      destruct pre; [reflexivity | discriminate Hpre].
     + destruct hasw; [discriminate|].
       destruct (num_ident t') as [[p t'']|] eqn:Ep; [|discriminate].
-      destruct (is_some (Some p) && starts_pre_or_build t''); [discriminate|].
-      intro H. injection H as <- _.
+      injection Epa as <- _ <-.
       destruct (Hspec eq_refl) as [-> Hnone].
-      unfold cmp_wf. cbn [cop cmaj cmin cpat opt_lt]. rewrite Hmi, Hop.
-      apply num_ident_lt in Emaj. apply N.ltb_lt in Emaj. rewrite Emaj.
-      apply num_ident_lt in Ep. apply N.ltb_lt in Ep. rewrite Ep.
-      destruct mi as [m|]; [reflexivity|]. pose proof (Hnone eq_refl) as Hn. congruence.
-  - cbn [is_some andb]. intro H. injection H as <- _.
-    unfold cmp_wf. cbn [cop cmaj cmin cpat opt_lt]. rewrite Hmi.
-    apply num_ident_lt in Emaj. apply N.ltb_lt in Emaj. rewrite Emaj. reflexivity.
+      apply num_ident_lt in Ep. apply N.ltb_lt in Ep. cbn [opt_lt is_some] in *. rewrite Ep, Hop.
+      destruct mi as [m|]; [| pose proof (Hnone eq_refl) as Hn; congruence].
+      cbn [is_some andb negb]. destruct pre; [reflexivity | exact Hpre].
+  - injection Epa as <- _ _. cbn [opt_lt is_some andb] in *.
+    destruct pre; [reflexivity | discriminate Hpre].
 Qed.
 
 Lemma parse_req_wf : forall fuel s l, parse_req fuel s = Some l -> forallb cmp_wf l = true /\ (length l <= fuel)%nat.
